@@ -110,6 +110,12 @@ def render_model(path, model, styles=None):
                                                          {"class": "register", "name": fm["reg"]}],
                       "throughput": fm.get("tp", 1.0), "latency": fm.get("lat", 1.0),
                       "port_pressure": render_uops(model, fm["uops"], "list"), "uops": None})
+    if mem.get("rmw"):
+        # register-only form of a real read-modify-write mnemonic (the shipped ISA database says that its last
+        # operand is read and written): `addq %rax, 8(%rbx)` is composed from it, the load AND the store table
+        forms.append({"name": "addq", "operands": [dict(GPR), dict(GPR)],
+                      "throughput": mem["rmw"].get("tp", 1.0), "latency": mem["rmw"].get("lat", 1.0),
+                      "port_pressure": render_uops(model, mem["rmw"]["uops"], "list"), "uops": None})
     data = {
         "osaca_version": "0.5.0", "micro_architecture": "synthetic", "arch_code": "syn", "isa": "x86",
         "ROB_size": 100, "retired_uOps_per_cycle": 4, "scheduler_size": 60, "hidden_loads": False,
@@ -144,6 +150,8 @@ def render_kernel(kernel, rnd=None, extras=False):
         elif it[0] == "st":
             r = {"xmm": "%xmm", "ymm": "%ymm"}[it[2]]
             out.append("ld%d %s%d, %d(%s)" % (it[1], r, n % 8, 8 * n, a))
+        elif it[0] == "rmw":
+            out.append("addq %s, %d(%s)" % (a, 8 * n, b))
         elif it[0] == "unknown":
             out.append("zzunknown %s, %s" % (a, b))
         elif it[0] == "comment":
@@ -358,13 +366,15 @@ def random_model(rnd, multi=True):
         def data_uops():
             return [[1, rnd.sample(range(1, n + 1), rnd.randint(1, min(2, n)))] for _ in range(rnd.choice([1, 1, 2]))]
 
-        mult = {"gpr": 1.0, "xmm": 1.0, "ymm": rnd.choice([1.0, 2.0, 2.0])}
+        mult = {"gpr": rnd.choice([1.0, 2.0, 3.0]), "xmm": 1.0, "ymm": rnd.choice([1.0, 2.0, 2.0])}
         model["mem"] = {"load": data_uops(), "store": data_uops(),
                         "regforms": [{"reg": rnd.choice(["xmm", "ymm"]), "uops": uops(), "tp": 1.0, "lat": 3.0}
                                      for _ in range(rnd.randint(1, 2))]}
         if rnd.random() < 0.8:
             model["mem"]["load_mult"] = dict(mult)
             model["mem"]["store_mult"] = dict(mult)
+        if rnd.random() < 0.7:
+            model["mem"]["rmw"] = {"uops": uops(), "tp": 1.0, "lat": 1.0}
     return model
 
 
@@ -379,6 +389,8 @@ def random_kernel(rnd, model, maxlen=8, extras=True):
             k.append(("label",))
         elif extras and r < 0.12:
             k.append(("unknown",))
+        elif model.get("mem") and model["mem"].get("rmw") and r < 0.17:
+            k.append(("rmw", 0, "gpr"))
         elif model.get("mem") and r < 0.3:
             j = rnd.randrange(len(model["mem"]["regforms"]))
             k.append((rnd.choice(["ld", "st"]), j, model["mem"]["regforms"][j]["reg"]))
@@ -404,6 +416,15 @@ def abstract_lines(model, kernel):
             m2 = int(round(2 * mults.get(it[2], 1.0)))
             alt = [{"c": units(c), "p": list(ps), "m": 2} for c, ps in fm["uops"]] + \
                   [{"c": units(c), "p": list(ps), "m": m2} for c, ps in table]
+            lines.append({"tp": 1, "alts": [alt]})
+        elif it[0] == "rmw":
+            # read-modify-write: register form + load micro-ops x load multiplier + store micro-ops x store multiplier
+            mem = model["mem"]
+            lm2 = int(round(2 * (mem.get("load_mult") or {}).get("gpr", 1.0)))
+            sm2 = int(round(2 * (mem.get("store_mult") or {}).get("gpr", 1.0)))
+            alt = [{"c": units(c), "p": list(ps), "m": 2} for c, ps in mem["rmw"]["uops"]] + \
+                  [{"c": units(c), "p": list(ps), "m": lm2} for c, ps in mem["load"]] + \
+                  [{"c": units(c), "p": list(ps), "m": sm2} for c, ps in mem["store"]]
             lines.append({"tp": 1, "alts": [alt]})
         else:
             lines.append({"tp": 0, "alts": [[]]})
